@@ -67,6 +67,13 @@ def build(config, eng):
                             ("cat", "b", 2, {"missing_at": (0,), "insertions": [S("c12", [1, 2])], "numeric_values": {1: 2, 2: 5}})], w_strict=True)
         tr = {"rows_dimension": {"order": {"type": "explicit", "element_ids": [3, 1]}, "elements": {"2": {"hide": True}}}}
         return w.response(), tr, 0, 1
+    if config == "waves":
+        # id-less insertions in the transforms; an order that refers to the second insertion by its generated id
+        w = CellWorld(eng, [("cat", "a", 3, {"missing_at": (3,)}), ("cat", "b", 2, {"missing_at": (0,)})], w_strict=True)
+        tr = {"rows_dimension": {"insertions": [{"anchor": "top", "function": "subtotal", "name": "high", "args": [3]},
+                                                {"anchor": "bottom", "function": "subtotal", "name": "low", "args": [1, 2]}]},
+              "columns_dimension": {"order": {"type": "opposing_insertion", "insertion_id": 2, "measure": "count_weighted", "direction": "ascending"}}}
+        return w.response(), tr, 0, 1
     if config == "3d":
         w = CellWorld(eng, [("cat", "t", 2, {"missing_at": (1,)}), ("mr", "m", 2, {}), ("cat", "b", 2, {"missing_at": (0,)})], w_strict=True)
         w.vars[1].item_aliases = ["alpha", "beta"]
@@ -91,7 +98,9 @@ def scenario(eng, config="cat_x_mr", all_pairs=False, light=False):
         return Cube(copy.deepcopy(resp), transforms=copy.deepcopy(tr), population=P).partitions[k]
 
     names = props_of(fresh_part())
-    if light:
+    if config == "waves":
+        names = [p for p in names if p in ("counts", "row_labels", "column_labels", "row_codes", "inserted_row_idxs", "rows_margin", "column_proportions", "shape", "payload_order")]
+    if light and config != "waves":
         # the 3-D configuration is about argument objects shared across partitions: a smaller property set keeps it fast
         names = [p for p in names if p not in ("zscores", "pvals", "pvalues", "residual_test_stats") and "scale" not in p and "std" not in p and "moe" not in p and "variance" not in p]
     fresh = {}
@@ -128,6 +137,20 @@ def scenario(eng, config="cat_x_mr", all_pairs=False, light=False):
             part = c.partitions[k]
             for p in (names if round_ < 3 else names[::-1]):
                 check("shared argument objects, cube %d, partition %d" % (round_, k), k, p, R.read(part, p))
+    # S8: the same transforms object used first with ANOTHER response (an "earlier wave" in which the last row category is
+    # missing, so that one insertion of the transforms is dropped there), then with this one
+    alt = copy.deepcopy(resp)
+    rdim = alt["result"]["dimensions"][0]["type"]
+    if "categories" in rdim and config == "waves":
+        valid_cats = [c for c in rdim["categories"] if not c.get("missing")]
+        valid_cats[-1]["missing"] = True
+        shared_t = copy.deepcopy(tr)
+        other = Cube(alt, transforms=shared_t, population=P).partitions[0]
+        for p in names:
+            R.read(other, p)
+        part = Cube(copy.deepcopy(resp), transforms=shared_t, population=P).partitions[k0]
+        for p in names:
+            check("transforms object first used with another response", k0, p, R.read(part, p))
     # S5: two partitions interleaved
     if nparts > 1:
         c = Cube(copy.deepcopy(resp), transforms=copy.deepcopy(tr), population=P)
@@ -160,7 +183,7 @@ def scenario(eng, config="cat_x_mr", all_pairs=False, light=False):
 
 def specs(tier):
     out = []
-    for cfg in ("cat_x_mr", "cat_x_cat", "3d", "mr_strand"):
+    for cfg in ("cat_x_mr", "cat_x_cat", "3d", "mr_strand", "waves"):
         out.append(dict(module="props.c18", fn="scenario", name="%s schedules" % cfg,
-                        params=dict(config=cfg, all_pairs=(tier == "thorough" and cfg != "3d"), light=(cfg == "3d")), max_paths=60, vc_timeouts=(5, 40)))
+                        params=dict(config=cfg, all_pairs=(tier == "thorough" and cfg not in ("3d", "waves")), light=(cfg in ("3d", "waves"))), max_paths=60, vc_timeouts=(5, 40)))
     return out
